@@ -375,7 +375,12 @@ func (a *An) c09More() {
 		R.Check(ok, "P.forget", "addKeys|per-pair", "a key pair already recorded is recognised by both of its ids (so every distinct pair gets its record and its key is disclosed later)", a.C.Pos(fn.Pos()),
 			"no early return under equality of both the record's our/their ids with the arguments")
 	}
-	// (3) retiring a generation and moving the id go together: every path from the retire step to a
+	a.retireImpliesMove()
+}
+
+// retireImpliesMove: retiring a generation and moving the key id go together, and nothing fails in between.
+func (a *An) retireImpliesMove() {
+	R := a.R
 	// successful exit passes the increment of the id
 	for _, ax := range []struct{ rotate, reveal, id string }{
 		{"(*keyManagementContext).rotateTheirKey", "(*keyManagementContext).revealMACKeysForTheirPreviousKeyID", "theirKeyID"},
@@ -404,24 +409,17 @@ func (a *An) c09More() {
 			if !canReach(cs[0], r) {
 				continue
 			}
-			// a return that hands back the mover's own failure is excluded (the id did not move because drawing the key failed)
-			if len(r.Results) > 0 {
-				if sc := statusCall(r.Results[len(r.Results)-1]); sc != nil {
-					isMover := false
-					for _, m := range movers {
-						if m == ssa.Instruction(sc) {
-							isMover = true
-						}
-					}
-					if isMover {
-						continue
-					}
-				}
-			}
 			if reachesAvoiding(cs[0], r, movers, nil) {
 				ok = false
 			}
+			// nothing can fail any more once the generation was retired (the new key is drawn before): a failing
+			// randomness source must not leave the counters forgotten and the MAC keys queued while the id stays
+			if len(r.Results) > 0 && isErrorType(r.Results[len(r.Results)-1].Type()) && !isNilConst(resolveLocal(r.Results[len(r.Results)-1])) {
+				R.Viol("S.retire-order", ax.rotate+"|no-failure-after-retire", "after the retire step the rotation cannot fail", a.C.InstrPos(r),
+					"a return with a possibly non-nil error ("+a.C.Term(r.Results[len(r.Results)-1])+") is reachable after the MAC keys and counters of generation id-1 were retired: if drawing the new key fails the id does not move, our next message restarts its counter (refused by the peer as regressed) and keys of a live generation are disclosed")
+			}
 		}
+		R.Ok("S.retire-order", ax.rotate+"|no-failure-after-retire-checked", "returns after the retire step examined", a.C.Pos(rot.Pos()))
 		R.Check(ok && len(movers) > 0, "S.retire-order", ax.rotate+"|retire-implies-move", "whenever a generation's MAC keys are queued for disclosure the key id moves on (the generation really is retired)", a.C.InstrPos(cs[0]),
 			"there is a path on which the MAC keys of generation id-1 are queued for disclosure but the id is not incremented: the keys are disclosed while messages under them are still accepted")
 	}
